@@ -144,24 +144,23 @@ def addLocalTime (u : TimeUnit) (t : LocalTime) (value : Int) : LocalTime :=
     let n := t.nod + value * u.nanos
     if n < 0 then ⟨n + NPD⟩ else ⟨n⟩
 
-/-- the `(days, value)` split at the head of both branches of `_add_local_time_with_extra_days` -/
-def splitDays (u : TimeUnit) (big : Bool) (value : Int) : R (Int × Int) :=
-  if big then do
-    let q ← pyTdiv value u.unitsPerDay
-    .ok (q, csharpMod value u.unitsPerDay)
-  else .ok (0, value)
+/-- the `(days, value)` split at the head of both branches of `_add_local_time_with_extra_days`;
+    `q` is the whole-day quotient the branch computes -/
+def splitDays (u : TimeUnit) (big : Bool) (q value : Int) : Int × Int :=
+  if big then (q, csharpMod value u.unitsPerDay) else (0, value)
 
-/-- `_add_local_time_with_extra_days` -/
-def addLocalTimeWithExtraDays (u : TimeUnit) (t : LocalTime) (value : Int) : R (LocalTime × Int) :=
-  if value = 0 then .ok (t, 0)
-  else if value ≥ 0 then do
-    let dv ← u.splitDays (decide (value ≥ u.unitsPerDay)) value
+/-- `_add_local_time_with_extra_days` (exact integer division: `value // upd` for non-negative amounts,
+    `-(-value // upd)` for negative ones; total for every integer amount) -/
+def addLocalTimeWithExtraDays (u : TimeUnit) (t : LocalTime) (value : Int) : LocalTime × Int :=
+  if value = 0 then (t, 0)
+  else if value ≥ 0 then
+    let dv := u.splitDays (decide (value ≥ u.unitsPerDay)) (Int.fdiv value u.unitsPerDay) value
     let n := t.nod + dv.2 * u.nanos
-    if n ≥ NPD then .ok (⟨n - NPD⟩, dv.1 + 1) else .ok (⟨n⟩, dv.1)
-  else do
-    let dv ← u.splitDays (decide (value ≤ -u.unitsPerDay)) value
+    if n ≥ NPD then (⟨n - NPD⟩, dv.1 + 1) else (⟨n⟩, dv.1)
+  else
+    let dv := u.splitDays (decide (value ≤ -u.unitsPerDay)) (-(Int.fdiv (-value) u.unitsPerDay)) value
     let n := t.nod + dv.2 * u.nanos
-    if n < 0 then .ok (⟨n + NPD⟩, dv.1 - 1) else .ok (⟨n⟩, dv.1)
+    if n < 0 then (⟨n + NPD⟩, dv.1 - 1) else (⟨n⟩, dv.1)
 
 end TimeUnit
 
@@ -211,7 +210,7 @@ namespace TimeUnit
 
 /-- `_add_local_date_time` -/
 def addLocalDateTime (u : TimeUnit) (r : DayRange) (start : LocalDateTime) (units : Int) : R LocalDateTime := do
-  let te ← u.addLocalTimeWithExtraDays start.time units
+  let te := u.addLocalTimeWithExtraDays start.time units
   let date ← (if te.2 = 0 then .ok start.day else r.plusDays start.day te.2 : R Int)
   .ok ⟨date, te.1⟩
 
@@ -241,21 +240,21 @@ def TimePeriod.neg (p : TimePeriod) : TimePeriod :=
 namespace LocalDateTime
 
 /-- the six time-unit steps of `plus(Period)`: the time of day and the sum of the extra days -/
-def timeSteps (t : LocalTime) (p : TimePeriod) : R (LocalTime × Int) := do
-  let a ← TimeUnit.hours.addLocalTimeWithExtraDays t p.hours
-  let b ← TimeUnit.minutes.addLocalTimeWithExtraDays a.1 p.minutes
-  let c ← TimeUnit.seconds.addLocalTimeWithExtraDays b.1 p.seconds
-  let d ← TimeUnit.milliseconds.addLocalTimeWithExtraDays c.1 p.milliseconds
-  let e ← TimeUnit.ticks.addLocalTimeWithExtraDays d.1 p.ticks
-  let f ← TimeUnit.nanoseconds.addLocalTimeWithExtraDays e.1 p.nanoseconds
-  .ok (f.1, a.2 + b.2 + c.2 + d.2 + e.2 + f.2)
+def timeSteps (t : LocalTime) (p : TimePeriod) : LocalTime × Int :=
+  let a := TimeUnit.hours.addLocalTimeWithExtraDays t p.hours
+  let b := TimeUnit.minutes.addLocalTimeWithExtraDays a.1 p.minutes
+  let c := TimeUnit.seconds.addLocalTimeWithExtraDays b.1 p.seconds
+  let d := TimeUnit.milliseconds.addLocalTimeWithExtraDays c.1 p.milliseconds
+  let e := TimeUnit.ticks.addLocalTimeWithExtraDays d.1 p.ticks
+  let f := TimeUnit.nanoseconds.addLocalTimeWithExtraDays e.1 p.nanoseconds
+  (f.1, a.2 + b.2 + c.2 + d.2 + e.2 + f.2)
 
 /-- `LocalDateTime.plus(period)`; `dayAfterYM` = day number of
     `self.date.plus_years(period.years).plus_months(period.months)`.
     `minus(period)` is the same computation on the negated components
     (`extra_days - other.days` = `(-other.days) + extra_days`). -/
 def plusPeriod (r : DayRange) (l : LocalDateTime) (dayAfterYM : Int) (p : TimePeriod) : R LocalDateTime := do
-  let te ← timeSteps l.time p
+  let te := timeSteps l.time p
   let d1 ← r.plusWeeks dayAfterYM p.weeks
   let d2 ← r.plusDays d1 (p.days + te.2)
   .ok ⟨d2, te.1⟩
@@ -331,8 +330,8 @@ def handle (toks : List String) : Option String :=
       | _ => none
   | ["tod.adddays", u, n, k] => do
       let u ← unit? u; let n ← parseInt? n; let k ← parseInt? k
-      some (showR (fun (r : LocalTime × Int) => toString r.1.nod ++ " " ++ toString r.2)
-        (u.addLocalTimeWithExtraDays ⟨n⟩ k))
+      let r := u.addLocalTimeWithExtraDays ⟨n⟩ k
+      some (toString r.1.nod ++ " " ++ toString r.2)
   | ["ldt.plus", _cal, u, lo, hi, d, n, k] => do
       let u ← unit? u
       match ← parseInts? [lo, hi, d, n, k] with
